@@ -190,8 +190,19 @@ def model_case(cid: str, seed: int, k: int, tier: str) -> dict[str, Any]:
                 # the same requests against another ECU model: same (request, state), other answers
                 "steps": h["steps"][: r.randint(1, n)],
                 "peer": {"kind": "model", "seed": mseed + 1 + j, "params": params, "drops": [], "idles": []}})
+        if k % 6 == 3:
+            # another invocation against the SAME target (same URL, same ECU name) with other properties:
+            # still separable by the properties
+            others.append({
+                "url": "c12inproc://target", "ecu_name": "tgt", "props": dict(OTHER_PROPS, variant=7),
+                "steps": h["steps"][: r.randint(1, n)],
+                "peer": {"kind": "model", "seed": mseed + 9, "params": params, "drops": [], "idles": []}})
         cut = r.randint(0, len(others))
+        if k % 12 == 3:
+            cut = 0  # ... recorded after the target run
         sels = r.sample(SELECTORS_ISOLATING, 3) + [{"ecu": None, "props": None}]
+        if k % 6 == 3:
+            sels.append({"ecu": "tgt", "props": {"variant": 1, "sw": "a"}})
         case["layout"] = {"before": others[:cut], "after": others[cut:], "selectors": sels}
     return case
 
